@@ -6,13 +6,13 @@ props = [json.loads(l) for l in open(os.path.join(HERE, 'properties.jsonl'))]
 TECH = 'bounded symbolic execution of rustc MIR (mirse) with z3 deciding every branch and assertion; counterexamples replayed natively'
 CLAIMED = {
  'C01': ('5/C01', 'grounded() executed symbolically on ADF families whose truth tables are solver variables; z3 decides per path that the result equals the least fixpoint written as a formula over the tables. Bounded: all 2-statement ADFs, 3/4-statement families with 1-2 symbolic statements.',
-         'native back-end only (biodivine/hybrid internals cannot be executed symbolically); std containers/iterators under models'),
+         'mirse: native back-end, std containers/iterators under models. Biodivine / hybrid back-ends (with and without pre-grounding): second engine of the same family - the real binary answers seeded texts (up to 300 statements) and z3 decides the least fixpoint on the formulas of each text; that part validates instances, it is not exhaustive'),
  'C02': ('5/C02', 'complete() executed symbolically; for all 3^n candidate interpretations z3 decides membership <=> fixpoint-of-consequence-operator, plus duplicate-freeness and grounded-first. Same bounded ADF families as C01.',
-         'native back-end only; std containers/iterators under models'),
+         'mirse: native back-end under std models; biodivine / hybrid back-ends via z3-judged answers of the real binary on seeded texts with 2-6 statements (per-instance validation)'),
  'C03': ('5/C03', 'stable() and stable_with_prefilter() executed symbolically; for all 2^n candidates z3 decides membership <=> (model and reduct-grounded re-derives the true statements). Same families as C01.',
-         'native back-end, plain and pre-filter variants; the two rewriting variants need biodivine (outside); std models'),
+         'mirse: native plain and pre-filter variants under std models; biodivine / hybrid back-ends and both rewriting variants via z3-judged answers of the real binary on seeded texts (per-instance validation)'),
  'C04': ('5/C04', 'both counting-guided procedures executed symbolically incl. heuristics comparators, path cubes and counting tables; result set compared with the stable-model definition by z3 for every ADF of the bounded families.',
-         'native back-end; std models'),
+         'mirse: native back-end under std models; hybrid back-ends via z3-judged answers of the real binary on seeded texts (per-instance validation)'),
  'C05': ('5/C05', 'nogood search executed symbolically for Simple, both counting heuristics, Rand (every draw a fresh solver variable) and a Custom model heuristic (every admissible choice explored); delivered multiset compared with the definition, sender drop checked in the channel model, fuel exhaustion = non-termination candidate confirmed natively.',
          'roaring bitmaps as 32-bit vectors, crossbeam channel as FIFO model, StdRng over-approximated; bounded families (Rand/Custom: all 2-statement ADFs + seeded 3-statement ADFs)'),
  'C08': ('5/C08, 10.2', 'library half only: the crate\'s grammar composition (alternative order, tags, map closures building Formula values, dictionary updates of parse_statement/parse_ac) is executed from its MIR on inputs of concrete length whose bytes are solver variables over a 24-symbol alphabet; a reference recogniser for the documented grammar runs on the same symbolic bytes; per path both must agree on accept/reject, consumed length, tree shape, verbatim label slices (keyword look-alikes), argument order, statement list / dictionary / formula list; no panic path.',
